@@ -386,8 +386,20 @@ func (run *sRun) recoverAndCheck(dir string, pre, post *sModel, opi int, where s
 			rows = append(rows, r)
 		}
 	}
+	droppedM := map[int]bool{}
+	for i, op := range c.Ops {
+		if op.K == "dropm" && i <= opi {
+			droppedM[op.M] = true
+		}
+	}
 	for k := 0; k < 3; k++ {
-		rows = append(rows, SRow{M: run.r.Intn(c.NMst), S: run.r.Intn(c.NSeries), T: run.r.Intn(sNumTimes), F: 1 + run.r.Intn(15)})
+		row := SRow{M: run.r.Intn(c.NMst), S: run.r.Intn(c.NSeries), T: run.r.Intn(sNumTimes), F: 1 + run.r.Intn(15)}
+		if !droppedM[row.M] {
+			rows = append(rows, row)
+		}
+	}
+	if len(rows) == 0 {
+		return nil, recJournal
 	}
 	wid := 900000 + n
 	sub := &sRun{c: c, env: run.env, out: core.NewOutcome(), fs: run.fs, node: node, model: m2, r: run.r, prop: run.prop, disk: cd, seen: map[[2]int]bool{}, ackPos: map[[2]int]int{}}
